@@ -84,6 +84,8 @@ def scenarios(ctx):
             o["lists"] = {"read": rng.random() < 0.8, "gt": bool(o.get("distrust")), "recomb": False}
         if rng.random() < 0.25:
             w["nocontig"] = rng.choice(["none", "first"])
+        if rng.random() < 0.15:
+            w["undeclared_info"] = True
         w["opts"] = o
         w["decor_seed"] = rng.randrange(10 ** 6)
         scs.append({"world": w})
@@ -166,7 +168,14 @@ def _decorate(wd, d, paths):
         contigs = []                      # ##contig lines are optional in VCF
     elif wd.get("nocontig") == "first":
         contigs = contigs[:1]             # only some contigs declared
-    W.write_vcf(paths["vcf"], samples, contigs, out, fmt_keys=tuple(wd["fmt_keys"]),
+    ikeys = ("AC", "NOTE", "FLAGGED")
+    if wd.get("undeclared_info"):
+        # AC / AN used in the records but NOT declared in the header (whatshap repairs such headers): nothing may be lost
+        ikeys = ("NOTE", "FLAGGED")
+        for r_ in out:
+            if r_.get("info", ".") in (".", "") or "AC=" in r_.get("info", ""):
+                r_["info"] = "AC=1;AN=2"
+    W.write_vcf(paths["vcf"], samples, contigs, out, fmt_keys=tuple(wd["fmt_keys"]), info_keys=ikeys,
                 extra_header=('##INFO=<ID=SVTYPE,Number=1,Type=String,Description="sv type">',
                               '##INFO=<ID=END,Number=1,Type=Integer,Description="end">',
                               '##ALT=<ID=DEL,Description="Deletion">'))
